@@ -292,7 +292,13 @@ func (g *olvmGen) next(balanceOf func([]byte) *big.Int) *olvmOp {
 	tw := OlvmTweak{}
 	note := ""
 	data := []byte(nil)
-	switch g.R.Intn(18) {
+	switch g.R.Intn(21) {
+	case 18:
+		tw.SigLen, note = 64+2*g.R.Intn(2), "signature-not-65-bytes" // 64 or 66
+	case 19:
+		tw.NilChainID, note = true, "payload-without-chain-id"
+	case 20:
+		tw.NilChainID, tw.SigLen, note = true, 64, "no-chain-id-and-short-signature"
 	case 15:
 		short := keys.Address(to[:19])
 		to, note = short, "recipient-address-19-bytes"
@@ -542,6 +548,7 @@ func vErrClass(log string) string {
 		{"gas limit reached", "gasPool"},
 		{"sender not an eoa", "notEOA"},
 		{"gas used exceed limit", "gasOverflow"},
+		{"invalid signature length", "sigBad"},
 		{"wrong signature length", "sigBad"},
 		{"invalid transaction v, r, s values", "sigBad"},
 	}
@@ -581,7 +588,7 @@ type OlvmOptions struct {
 	Only      int // >= 0: run only this case
 }
 
-const olvmRule = "case = one generated block history on the fork genesis family (Frankenstein block 1 or 2, 3 Ethereum-keyed accounts of which one nearly empty, 3 native accounts; every 6th case with a finite block gas limit; cases 0/1 are the scripted S8 / S12 scenarios): mixes of OLVM transactions (plain transfers incl. to self / fresh / native-keyed addresses, creations of 6 hand-assembled contracts with and without value incl. failing init code and missing deposit gas, calls that succeed / revert / run out of gas / forward value / pay the caller back / selfdestruct, nonces above and below the state nonce and re-used, exact / one-short / absent funds, 15 ways of breaking a transaction) with native SENDs to the same accounts, contracts and future contract addresses, each offered to CheckTx first. Per transaction on the real application: native view == EVM view (balance, nonce) for every tracked account before and after; for an executed OLVM tx sender / recipient / contract-kind flows, fee pool += gasUsed*price, nonce+1, no other balance record changes, sum of all OLT records unchanged; for a refused one no key of the tree changes; per block a twin replica that never saw the refused transactions or any CheckTx has the same application hash. Correspondence: every DeliverTx / CheckTx of an OLVM tx is re-computed by the Lean model from the decoded pre-state records and the reference interpreter's outputs (go-ethereum EVM on go-ethereum's own state) and must give the same code, stage, gas used / wanted, fee pool and account records. non-trivial = at least one executed value transfer, one executed-but-reverted tx, one refused tx and one native transfer to an EVM-known account; distinct = SHA-256 of the history lines"
+const olvmRule = "case = one generated block history on the fork genesis family (Frankenstein block 1 or 2, 3 Ethereum-keyed accounts of which one nearly empty, 3 native accounts; every 6th case with a finite block gas limit; cases 0/1/2 are scripted: the selfdestruct regression scenario (create / fund / trigger: beneficiary +5070, contract record 0, total unchanged), nonce re-use (S12), inner revert): mixes of OLVM transactions (plain transfers incl. to self / fresh / native-keyed addresses, creations of 6 hand-assembled contracts with and without value incl. failing init code and missing deposit gas, calls that succeed / revert / run out of gas / forward value / pay the caller back / selfdestruct, nonces above and below the state nonce and re-used, exact / one-short / absent funds, 21 ways of breaking a transaction) with native SENDs to the same accounts, contracts and future contract addresses, each offered to CheckTx first. Per transaction on the real application: native view == EVM view (balance, nonce) for every tracked account before and after; for an executed OLVM tx sender / recipient / contract-kind flows, fee pool += gasUsed*price, nonce+1, no other balance record changes, sum of all OLT records unchanged; for a refused one no key of the tree changes; per block a twin replica that never saw the refused transactions or any CheckTx has the same application hash. Correspondence: every DeliverTx / CheckTx of an OLVM tx is re-computed by the Lean model from the decoded pre-state records and the reference interpreter's outputs (go-ethereum EVM on go-ethereum's own state) and must give the same code, stage, gas used / wanted, fee pool and account records. non-trivial = at least one executed value transfer, one executed-but-reverted tx, one refused tx and one native transfer to an EVM-known account; distinct = SHA-256 of the history lines"
 
 type olvmCase struct {
 	opt    OlvmOptions
@@ -987,7 +994,8 @@ func (oc *olvmCase) modelLine(verb string, w *OlvmWorld, g *olvmGen, o *olvmOp, 
 	if o.Tw.ExtraSig {
 		sigs = 2
 	}
-	chainOk := o.Tw.PayloadChainID == nil || o.Tw.PayloadChainID.Cmp(w.EvmID) == 0
+	chainOk := !o.Tw.NilChainID && (o.Tw.PayloadChainID == nil || o.Tw.PayloadChainID.Cmp(w.EvmID) == 0)
+	sigOk := o.Tw.SigLen == 0 || o.Tw.SigLen == 65
 	signer := o.From
 	if o.Tw.SignKey != nil {
 		signer = o.Tw.SignKey
@@ -1063,10 +1071,10 @@ func (oc *olvmCase) modelLine(verb string, w *OlvmWorld, g *olvmGen, o *olvmOp, 
 		toks = append(toks, pre.acctToken(a))
 	}
 	addrOk := o.To == nil || len(*o.To) == 20
-	line := fmt.Sprintf("%s %s 1000000000 %d %s %s %s %d %s %d %s %d %d %d %s %d 1 %s %s %s %s %s %s %s %s",
+	line := fmt.Sprintf("%s %s 1000000000 %d %s %s %s %d %s %d %s %d %d %d %s %d %s %s %s %s %s %s %s %s %s %s",
 		verb, olvmB01(enabled), gasPool, newAddr,
 		hexAddr(fromAddr), toTok, o.Nonce, val, o.Gas, o.Price, nz, z, size, memo,
-		sigs, olvmB01(chainOk), olvmB01(senderOk), olvmB01(feeCurOk), olvmB01(amtCurOk), olvmB01(addrOk),
+		sigs, olvmB01(sigOk), olvmB01(chainOk), olvmB01(senderOk), olvmB01(feeCurOk), olvmB01(amtCurOk), olvmB01(addrOk), olvmB01(o.Tw.NilChainID),
 		vm.tokens(), pre.pool(), strings.Join(toks, ","))
 	return line, vm
 }
@@ -1145,6 +1153,7 @@ func (oc *olvmCase) monitorTx(w *OlvmWorld, g *olvmGen, o *olvmOp, rd abci.Respo
 		addExp(rcpt, new(big.Int).Neg(old))
 		addExp(ci.Target, new(big.Int).Add(old, value))
 		selfdestructed = rcpt
+		res.Counters["selfdestructs_checked"]++
 	default:
 		addExp(rcpt, value)
 	}
